@@ -8,6 +8,7 @@ import (
 	"time"
 
 	"golang.org/x/crypto/openpgp"
+	"golang.org/x/crypto/openpgp/armor"
 	"golang.org/x/crypto/openpgp/clearsign"
 	"golang.org/x/crypto/openpgp/packet"
 	"pault.ag/go/debian/control"
@@ -183,6 +184,33 @@ func execClearsignOne(vec J, out *Writer, echo J) {
 		b = append(b, []byte("\n"+foreignPara)...)
 	case "second_block":
 		b = append(b, clearSign(key("k2"), []byte(foreignPara))...)
+	case "multi_sig":
+		// the armored signature holds several signature packets: the document's own ("good"), one made by k1 over
+		// another text ("unrelated"), one made by k1 over the EMPTY text ("empty"), one by k2 over this text ("k2good")
+		var pk bytes.Buffer
+		for _, kj := range L(mut["packets"]) {
+			switch kj.(string) {
+			case "good":
+				pk.Write(orig.sigpkt)
+			case "unrelated":
+				pk.Write(factsOf(clearSign(key("k1"), []byte("Other: document\n"))).sigpkt)
+			case "empty":
+				pk.Write(factsOf(clearSign(key("k1"), []byte(""))).sigpkt)
+			case "k2good":
+				pk.Write(factsOf(clearSign(key("k2"), text)).sigpkt)
+			}
+		}
+		if i := bytes.Index(b, []byte("-----BEGIN PGP SIGNATURE-----")); i >= 0 {
+			var arm bytes.Buffer
+			w, err := armor.Encode(&arm, "PGP SIGNATURE", nil)
+			if err != nil {
+				die("armor: %v", err)
+			}
+			w.Write(pk.Bytes())
+			w.Close()
+			b = append(append([]byte{}, b[:i]...), arm.Bytes()...)
+			b = append(b, '\n')
+		}
 	case "drop_sig":
 		if i := bytes.Index(b, []byte("-----BEGIN PGP SIGNATURE-----")); i >= 0 {
 			b = b[:i]
